@@ -64,7 +64,23 @@ func (n *Network) FastNetworkSolver() (Solver, error) {
 	inList := make([]*NNode, 0)
 	biasList := make([]*NNode, 0)
 	hiddenList := make([]*NNode, 0)
+	// the sensors are taken in the order of the network's inputs list, which is the order LoadSensors follows
+	sensors := make(map[*NNode]bool, len(n.inputs))
+	for _, ne := range n.inputs {
+		switch ne.NeuronType {
+		case BiasNeuron:
+			biasNeuronCount += 1
+			biasList = append(biasList, ne)
+			sensors[ne] = true
+		case InputNeuron:
+			inList = append(inList, ne)
+			sensors[ne] = true
+		}
+	}
 	for _, ne := range n.allNodes {
+		if sensors[ne] {
+			continue
+		}
 		switch ne.NeuronType {
 		case BiasNeuron:
 			biasNeuronCount += 1
